@@ -97,19 +97,28 @@ def run(ctx):
                 raise Inconclusive(f"scan failed: {r}")
             raw = vh.call(op="raw", db=db)
             order = def_index(raw)
-            for rel in ws.workspace_py():
-                f = ws.abs(rel)
-                m = model.models.get(f)
-                if m is None or not m.ok:
-                    continue
-                for u in m.usages:
-                    def actual_at(col, f=f, u=u):
-                        a = vh.call(op="goto", db=db, path=f, line=u["line"] - 1, char=col)
-                        if "panic" in a:
-                            raise Inconclusive(f"goto panicked: {a}")
-                        t = a.get("target")
-                        return (t["file"], t["line"]) if t else None
-                    judge_usage(ctx, ws, model, order, f, u, actual_at, "vh")
+            for phase in ("scanned", "conftests_closed"):
+                if phase == "conftests_closed":
+                    if i % 3 != 0:
+                        break
+                    # the editor closed every conftest.py tab: their texts leave the text cache, the workspace is unchanged
+                    for rel in ws.workspace_py():
+                        if rel.endswith("conftest.py"):
+                            vh.call(op="close", db=db, path=ws.abs(rel))
+                    ctx.nontrivial(("phase", phase))
+                for rel in ws.workspace_py():
+                    f = ws.abs(rel)
+                    m = model.models.get(f)
+                    if m is None or not m.ok:
+                        continue
+                    for u in m.usages:
+                        def actual_at(col, f=f, u=u):
+                            a = vh.call(op="goto", db=db, path=f, line=u["line"] - 1, char=col)
+                            if "panic" in a:
+                                raise Inconclusive(f"goto panicked: {a}")
+                            t = a.get("target")
+                            return (t["file"], t["line"]) if t else None
+                        judge_usage(ctx, ws, model, order, f, u, actual_at, "vh")
             vh.call(op="drop_db", db=db)
             ctx.sample({"spec": ws.spec, "files": sorted(ws.files)[:12]})
             if i < n_lsp:
